@@ -847,7 +847,7 @@ impl<const M: usize> Drv<M> {
     }
 
     fn op_try_with(&mut self, depth: u32) {
-        let combo = self.rng.below(6);
+        let combo = self.rng.below(9);
         let fallible = self.rng.chance(1, 2);
         let ok = self.rng.chance(1, 2);
         let nested = depth == 0 && self.rng.chance(1, 8);
@@ -973,6 +973,10 @@ impl<const M: usize> Drv<M> {
             1 => go!(u64, u64),
             2 => go!(u128, ()),
             3 => go!((), ()),
+            // a small value with a large error: the Result slot is much larger than T
+            6 => go!(u64, [u8; 320]),
+            7 => go!(u8, [u8; 400]),
+            8 => go!(u32, [u8; 3000]),
             _ => go!([u8; 1000], u32),
         }
     }
@@ -1675,6 +1679,56 @@ fn iso(seed: u64, count: u64, first: u64) {
     }
 }
 
+/// slices of zero-sized elements: every fill helper still calls its closure once per element in index
+/// order, consumes its iterator, clones / defaults once per element, and returns a slice of that length
+fn zst_fill_probe() {
+    use std::cell::Cell;
+    thread_local! { static MADE: Cell<usize> = Cell::new(0); }
+    #[derive(Debug)]
+    struct Z;
+    impl Clone for Z { fn clone(&self) -> Z { MADE.with(|m| m.set(m.get() + 1)); Z } }
+    impl Default for Z { fn default() -> Z { MADE.with(|m| m.set(m.get() + 1)); Z } }
+    let b = Bump::new();
+    for n in [0usize, 1, 2, 7] {
+        let mut bad: Vec<String> = Vec::new();
+        let mut calls = Vec::new();
+        let s = b.alloc_slice_fill_with(n, |i| { calls.push(i); Z });
+        if s.len() != n || !calls.iter().copied().eq(0..n) { bad.push(format!("alloc_slice_fill_with calls={:?}", calls)); }
+        let mut calls = Vec::new();
+        let s = b.try_alloc_slice_fill_with(n, |i| { calls.push(i); Z }).unwrap();
+        if s.len() != n || !calls.iter().copied().eq(0..n) { bad.push(format!("try_alloc_slice_fill_with calls={:?}", calls)); }
+        let mut calls = Vec::new();
+        let s = b.alloc_slice_try_fill_with(n, |i| { calls.push(i); Ok::<Z, ()>(Z) }).unwrap();
+        if s.len() != n || !calls.iter().copied().eq(0..n) { bad.push(format!("alloc_slice_try_fill_with calls={:?}", calls)); }
+        let mut taken = 0usize;
+        let s = b.alloc_slice_fill_iter((0..n).map(|_| { taken += 1; Z }));
+        if s.len() != n || taken != n { bad.push(format!("alloc_slice_fill_iter taken={}", taken)); }
+        let mut taken = 0usize;
+        let s = b.try_alloc_slice_fill_iter((0..n).map(|_| { taken += 1; Z })).unwrap();
+        if s.len() != n || taken != n { bad.push(format!("try_alloc_slice_fill_iter taken={}", taken)); }
+        let mut taken = 0usize;
+        let s = b.alloc_slice_try_fill_iter((0..n).map(|_| { taken += 1; Ok::<Z, ()>(Z) })).unwrap();
+        if s.len() != n || taken != n { bad.push(format!("alloc_slice_try_fill_iter taken={}", taken)); }
+        MADE.with(|m| m.set(0));
+        let s = b.alloc_slice_fill_clone(n, &Z);
+        if s.len() != n || MADE.with(|m| m.get()) != n { bad.push(format!("alloc_slice_fill_clone clones={}", MADE.with(|m| m.get()))); }
+        MADE.with(|m| m.set(0));
+        let s = b.alloc_slice_fill_default::<Z>(n);
+        if s.len() != n || MADE.with(|m| m.get()) != n { bad.push(format!("alloc_slice_fill_default defaults={}", MADE.with(|m| m.get()))); }
+        MADE.with(|m| m.set(0));
+        let src: Vec<Z> = (0..n).map(|_| Z).collect();
+        let s = b.alloc_slice_clone(&src);
+        if s.len() != n || MADE.with(|m| m.get()) != n { bad.push(format!("alloc_slice_clone clones={}", MADE.with(|m| m.get()))); }
+        let mut made = 0usize;
+        let r = b.alloc_with(|| { made += 1; Z });
+        let _ = r;
+        if made != 1 { bad.push(format!("alloc_with calls={}", made)); }
+        for what in bad {
+            println!("K zero-sized fill of {} elements: bad call order or count in {}", n, what.replace(' ', "_"));
+        }
+    }
+}
+
 /// with_min_align & friends for supported and unsupported MIN_ALIGN values:
 /// one `T` line each (did it panic, how many chunk requests were made)
 fn ctor_tests() {
@@ -1722,6 +1776,7 @@ fn main() {
             let first: u64 = args.get(5).map(|s| s.parse().unwrap()).unwrap_or(0);
             if first == 0 {
                 ctor_tests();
+                zst_fill_probe();
                 scenarios(seed);
                 // C20: isolation differential in fresh processes (shard 0 only)
                 iso(seed, if maxops > 100 { 120 } else { 24 }, 0);
